@@ -4,22 +4,23 @@
 
 package avltree
 
-//@ -- ghost state (DESIGN.md §3.4): as for the red-black tree; C0/C1 are Children[0]/Children[1]
+//@ -- ghost state (DESIGN.md §3.4): as for the red-black tree, with the subtree interval named [lo,hi] because the
+//@ -- node's real field b is the balance factor
 //@ ghost field Tree.nodes map like Root
 //@ ghost field Tree.rank mapfrom Comparator int
 //@ ghost field Node.tr ptr Tree
 //@ ghost field Node.pos int
-//@ ghost field Node.a int
-//@ ghost field Node.b int
+//@ ghost field Node.lo int
+//@ ghost field Node.hi int
 //@ ghost field Node.h int
 
 //@ pred SWO(c, w) := (forall x like w, y like w :: (c(x, y) < 0 <==> c(y, x) > 0))
 //@     && (forall x like w, y like w, z like w :: c(x, y) <= 0 && c(y, z) <= 0 ==> c(x, z) <= 0)
 
-//@ pred LC(t, x) := x.tr == t ==> x != nil && x.a <= x.pos && x.pos <= x.b && 0 <= x.pos && x.pos < t.size && t.nodes[x.pos] == x
-//@     && (x.Children[0] == nil ==> x.a == x.pos) && (x.Children[0] != nil ==> x.Children[0].tr == t && x.Children[0].Parent == x && x.Children[0].a == x.a && x.Children[0].b == x.pos - 1)
-//@     && (x.Children[1] == nil ==> x.b == x.pos) && (x.Children[1] != nil ==> x.Children[1].tr == t && x.Children[1].Parent == x && x.Children[1].a == x.pos + 1 && x.Children[1].b == x.b)
-//@     && (x.Parent == nil ==> x == t.Root && x.a == 0 && x.b == t.size - 1)
+//@ pred LC(t, x) := x.tr == t ==> x != nil && x.lo <= x.pos && x.pos <= x.hi && 0 <= x.pos && x.pos < t.size && t.nodes[x.pos] == x
+//@     && (x.Children[0] == nil ==> x.lo == x.pos) && (x.Children[0] != nil ==> x.Children[0].tr == t && x.Children[0].Parent == x && x.Children[0].lo == x.lo && x.Children[0].hi == x.pos - 1)
+//@     && (x.Children[1] == nil ==> x.hi == x.pos) && (x.Children[1] != nil ==> x.Children[1].tr == t && x.Children[1].Parent == x && x.Children[1].lo == x.pos + 1 && x.Children[1].hi == x.hi)
+//@     && (x.Parent == nil ==> x == t.Root && x.lo == 0 && x.hi == t.size - 1)
 //@     && (x.Parent != nil ==> x.Parent.tr == t && (x.Parent.Children[0] == x || x.Parent.Children[1] == x))
 //@ pred ShapeInv(t) := t != nil && t.size >= 0 && (t.size == 0 <==> t.Root == nil) && (t.Root != nil ==> t.Root.tr == t && t.Root.Parent == nil)
 //@     && (forall x like t.Root :: LC(t, x))
@@ -47,10 +48,10 @@ package avltree
 //@   ensures [C01 C17 C18] (result != nil) == Has(tree, key) && (result != nil ==> result == tree.nodes[tree.rank[key]] && result.tr == tree)
 //@   loop 1:
 //@     invariant n != nil ==> n.tr == tree
-//@     invariant n != nil ==> (forall i :: 0 <= i && i < n.a ==> tree.Comparator(key, tree.nodes[i].Key) > 0)
-//@     invariant n != nil ==> (forall i :: n.b < i && i < tree.size ==> tree.Comparator(key, tree.nodes[i].Key) < 0)
+//@     invariant n != nil ==> (forall i :: 0 <= i && i < n.lo ==> tree.Comparator(key, tree.nodes[i].Key) > 0)
+//@     invariant n != nil ==> (forall i :: n.hi < i && i < tree.size ==> tree.Comparator(key, tree.nodes[i].Key) < 0)
 //@     invariant n == nil ==> (forall i :: 0 <= i && i < tree.size ==> tree.Comparator(key, tree.nodes[i].Key) != 0)
-//@     decreases ite(n != nil, n.b - n.a + 1, 0)
+//@     decreases ite(n != nil, n.hi - n.lo + 1, 0)
 
 //@ func Tree.Get
 //@   requires Inv(tree)
@@ -79,8 +80,8 @@ package avltree
 //@   modifies nothing
 //@   ensures (tree.size == 0 ==> result == nil) && (tree.size > 0 && d == 0 ==> result == tree.nodes[0]) && (tree.size > 0 && d == 1 ==> result == tree.nodes[tree.size - 1])
 //@   loop 1:
-//@     invariant n != nil && n.tr == tree && (d == 0 ==> n.a == 0) && (d == 1 ==> n.b == tree.size - 1) && c == n.Children[d]
-//@     decreases n.b - n.a
+//@     invariant n != nil && n.tr == tree && (d == 0 ==> n.lo == 0) && (d == 1 ==> n.hi == tree.size - 1) && c == n.Children[d]
+//@     decreases n.hi - n.lo
 
 //@ func Tree.Left
 //@   requires ShapeInv(tree)
@@ -100,10 +101,10 @@ package avltree
 //@   ensures [C02 C17 C18] !found ==> floor == nil && (forall i :: 0 <= i && i < tree.size ==> tree.Comparator(tree.nodes[i].Key, key) > 0)
 //@   loop 1:
 //@     invariant (found ==> floor != nil && floor.tr == tree && tree.Comparator(key, floor.Key) > 0) && (n != nil ==> n.tr == tree)
-//@     invariant n != nil ==> n.a == ite(found, floor.pos + 1, 0)
-//@     invariant n != nil ==> (forall i :: n.b < i && i < tree.size ==> tree.Comparator(key, tree.nodes[i].Key) < 0)
+//@     invariant n != nil ==> n.lo == ite(found, floor.pos + 1, 0)
+//@     invariant n != nil ==> (forall i :: n.hi < i && i < tree.size ==> tree.Comparator(key, tree.nodes[i].Key) < 0)
 //@     invariant n == nil ==> (forall i :: ite(found, floor.pos + 1, 0) <= i && i < tree.size ==> tree.Comparator(key, tree.nodes[i].Key) < 0)
-//@     decreases ite(n != nil, n.b - n.a + 1, 0)
+//@     decreases ite(n != nil, n.hi - n.lo + 1, 0)
 
 //@ func Tree.Ceiling
 //@   requires Inv(tree)
@@ -113,10 +114,10 @@ package avltree
 //@   ensures [C02 C17 C18] !found ==> floor == nil && (forall i :: 0 <= i && i < tree.size ==> tree.Comparator(tree.nodes[i].Key, key) < 0)
 //@   loop 1:
 //@     invariant (found ==> floor != nil && floor.tr == tree && tree.Comparator(key, floor.Key) < 0) && (n != nil ==> n.tr == tree)
-//@     invariant n != nil ==> n.b == ite(found, floor.pos - 1, tree.size - 1)
-//@     invariant n != nil ==> (forall i :: 0 <= i && i < n.a ==> tree.Comparator(key, tree.nodes[i].Key) > 0)
+//@     invariant n != nil ==> n.hi == ite(found, floor.pos - 1, tree.size - 1)
+//@     invariant n != nil ==> (forall i :: 0 <= i && i < n.lo ==> tree.Comparator(key, tree.nodes[i].Key) > 0)
 //@     invariant n == nil ==> (forall i :: 0 <= i && i <= ite(found, floor.pos - 1, tree.size - 1) ==> tree.Comparator(key, tree.nodes[i].Key) > 0)
-//@     decreases ite(n != nil, n.b - n.a + 1, 0)
+//@     decreases ite(n != nil, n.hi - n.lo + 1, 0)
 
 //@ -- in-order successor (a == 1) / predecessor (a == 0) of a node
 //@ func Node.walk1
@@ -126,11 +127,11 @@ package avltree
 //@   ensures n != nil && a == 1 ==> (n.pos == n.tr.size - 1 ==> result == nil) && (n.pos < n.tr.size - 1 ==> result == n.tr.nodes[n.pos + 1])
 //@   ensures n != nil && a == 0 ==> (n.pos == 0 ==> result == nil) && (n.pos > 0 ==> result == n.tr.nodes[n.pos - 1])
 //@   loop 1:
-//@     invariant n != nil && n.tr == n0.tr && (a == 1 ==> n.a == n0.pos + 1) && (a == 0 ==> n.b == n0.pos - 1)
-//@     decreases n.b - n.a
+//@     invariant n != nil && n.tr == n0.tr && (a == 1 ==> n.lo == n0.pos + 1) && (a == 0 ==> n.hi == n0.pos - 1)
+//@     decreases n.hi - n.lo
 //@   loop 2:
-//@     invariant n != nil && n.tr == n0.tr && p == n.Parent && (a == 1 ==> n.b == n0.pos) && (a == 0 ==> n.a == n0.pos)
-//@     decreases n0.tr.size - (n.b - n.a)
+//@     invariant n != nil && n.tr == n0.tr && p == n.Parent && (a == 1 ==> n.hi == n0.pos) && (a == 0 ==> n.lo == n0.pos)
+//@     decreases n0.tr.size - (n.hi - n.lo)
 
 //@ func Node.Next
 //@   requires n != nil ==> n.tr != nil && ShapeInv(n.tr)
@@ -249,3 +250,96 @@ package avltree
 //@ func New
 //@   modifies nothing
 //@   ensures [C01 C02 C07 C15 C17] fresh(result) && Inv(result) && result.size == 0
+
+//@ -- Node.String: formats the key; reads only
+//@ func Node.String
+//@   requires n != nil
+//@   modifies nothing
+//@   ensures [C17 C18] true
+
+// ---- mutators: contracts ASSUMED (trusted), not verified: put/remove/putFix/removeFix take **Node, which is outside the
+// ---- engine's location model. They are stated so that the functions built on them (JSON) can be verified, and are backed
+// ---- only by the bounded stand-in (/verif/bounded/avl.go.tmpl), which checks exactly these clauses on every history of
+// ---- its scope. Listed under trusted_contracts in the evidence.
+
+//@ -- Put: insert or replace. pnew (ghost result) is the position of the entry for `key` afterwards.
+//@ func Tree.Put
+//@   trusted
+//@   modifies tree.Root, tree.size, tree.nodes, tree.rank
+//@   modifies each x like tree.Root where x.tr == tree : x.Children, x.Parent, x.lo, x.hi, x.h, x.b, x.Key, x.Value, x.pos
+//@   requires Inv(tree)
+//@   ghostresult pnew int
+//@   ensures [C01 C02 C17] Inv(tree) && tree.Comparator == old(tree.Comparator)
+//@   ensures owners: forall x like tree.Root :: fresh(x) ==> x.tr == tree || x.tr == nil
+//@   ensures [C01 C02] at: 0 <= pnew && pnew < tree.size && tree.Comparator(key, KeyAt(tree, pnew)) == 0 && ValAt(tree, pnew) == value && tree.rank[key] == pnew && KeyAt(tree, pnew) == key
+//@   ensures [C01 C02] replaced: old(Has(tree, key)) ==> tree.size == old(tree.size) && tree.nodes == old(tree.nodes) && tree.rank == old(tree.rank)
+//@     && (forall i :: 0 <= i && i < tree.size && i != pnew ==> KeyAt(tree, i) == old(KeyAt(tree, i)) && ValAt(tree, i) == old(ValAt(tree, i)))
+//@   ensures [C01 C02] inserted: !old(Has(tree, key)) ==> tree.size == old(tree.size) + 1 && fresh(tree.nodes[pnew])
+//@     && (forall i :: 0 <= i && i < pnew ==> tree.nodes[i] == old(tree.nodes[i]) && KeyAt(tree, i) == old(KeyAt(tree, i)) && ValAt(tree, i) == old(ValAt(tree, i)))
+//@     && (forall i :: pnew < i && i < tree.size ==> tree.nodes[i] == old(tree.nodes[i-1]) && KeyAt(tree, i) == old(KeyAt(tree, i-1)) && ValAt(tree, i) == old(ValAt(tree, i-1)))
+//@   ensures [C01] map: forall k like key :: (Has(tree, k) <==> old(Has(tree, k)) || tree.Comparator(k, key) == 0)
+//@     && (tree.Comparator(k, key) == 0 ==> Val(tree, k) == value) && (tree.Comparator(k, key) != 0 && old(Has(tree, k)) ==> Val(tree, k) == old(Val(tree, k)))
+
+//@ -- Remove: delete the entry equivalent to `key`, if any
+//@ func Tree.Remove
+//@   trusted
+//@   modifies tree.Root, tree.size, tree.nodes, tree.rank
+//@   modifies each x like tree.Root where x.tr == tree : x.Children, x.Parent, x.lo, x.hi, x.h, x.b, x.Key, x.Value, x.pos, x.tr
+//@   requires Inv(tree)
+//@   ensures [C01 C02 C17] Inv(tree) && tree.Comparator == old(tree.Comparator)
+//@   ensures owners: forall x like tree.Root :: x.tr == old(x.tr) || (old(x.tr) == tree && x.tr == nil)
+//@   ensures [C01 C02] absent: !old(Has(tree, key)) ==> tree.size == old(tree.size) && tree.nodes == old(tree.nodes) && tree.rank == old(tree.rank)
+//@     && (forall i :: 0 <= i && i < tree.size ==> KeyAt(tree, i) == old(KeyAt(tree, i)) && ValAt(tree, i) == old(ValAt(tree, i)))
+//@   ensures [C01 C02] present: old(Has(tree, key)) ==> tree.size == old(tree.size) - 1
+//@     && (forall i :: 0 <= i && i < old(tree.rank[key]) ==> KeyAt(tree, i) == old(KeyAt(tree, i)) && ValAt(tree, i) == old(ValAt(tree, i)))
+//@     && (forall i :: old(tree.rank[key]) <= i && i < tree.size ==> KeyAt(tree, i) == old(KeyAt(tree, i+1)) && ValAt(tree, i) == old(ValAt(tree, i+1)))
+//@   ensures [C01] map: forall k like key :: (Has(tree, k) <==> old(Has(tree, k)) && tree.Comparator(k, key) != 0) && (Has(tree, k) ==> Val(tree, k) == old(Val(tree, k)))
+
+// ---- JSON (C11 round trip, C12 replace / sound / atomic) ----
+
+//@ func Tree.ToJSON
+//@   requires Inv(tree)
+//@   modifies nothing
+//@   ensures [C11 C17 C18] result1 == nil && fresh(arr(result0)) && jobj_kind(result0, argof(tree.Comparator, 0), tree.Root.Value) == 3 && jobj_card(result0, argof(tree.Comparator, 0), tree.Root.Value) == tree.size
+//@   ensures [C11] content: forall i :: 0 <= i && i < tree.size ==> jobj_has(result0, KeyAt(tree, i), tree.Root.Value) && jobj_val(result0, KeyAt(tree, i), tree.Root.Value) == ValAt(tree, i)
+//@   ensures [C11] only: forall k like argof(tree.Comparator, 0) :: jobj_has(result0, k, tree.Root.Value) ==> Has(tree, k) && KeyAt(tree, tree.rank[k]) == k
+//@   loop 1:
+//@     invariant ItInv(it) && fresh(it) && it.tree == tree && fresh(elements) && elements != nil && len(elements) == Cur(it) + 1 && Cur(it) < tree.size
+//@     invariant forall j :: 0 <= j && j <= Cur(it) && j < tree.size ==> has(elements, KeyAt(tree, j)) && elements[KeyAt(tree, j)] == ValAt(tree, j)
+//@     invariant forall k like argof(tree.Comparator, 0) :: has(elements, k) ==> Has(tree, k) && tree.rank[k] <= Cur(it) && KeyAt(tree, tree.rank[k]) == k
+//@     decreases tree.size - Cur(it)
+
+//@ func Tree.MarshalJSON
+//@   requires Inv(tree)
+//@   modifies nothing
+//@   ensures [C11 C17 C18] result1 == nil && fresh(arr(result0)) && jobj_kind(result0, argof(tree.Comparator, 0), tree.Root.Value) == 3 && jobj_card(result0, argof(tree.Comparator, 0), tree.Root.Value) == tree.size
+//@   ensures [C11] content: forall i :: 0 <= i && i < tree.size ==> jobj_has(result0, KeyAt(tree, i), tree.Root.Value) && jobj_val(result0, KeyAt(tree, i), tree.Root.Value) == ValAt(tree, i)
+//@   ensures [C11] only: forall k like argof(tree.Comparator, 0) :: jobj_has(result0, k, tree.Root.Value) ==> Has(tree, k) && KeyAt(tree, tree.rank[k]) == k
+
+//@ func Tree.FromJSON
+//@   requires Inv(tree)
+//@   modifies tree.Root, tree.size, tree.nodes, tree.rank
+//@   modifies each x like tree.Root where x.tr == tree : x.Children, x.Parent, x.lo, x.hi, x.h, x.b, x.Key, x.Value, x.pos, x.tr
+//@   ensures [C12 C17] Inv(tree) && tree.Comparator == old(tree.Comparator) && (result == nil <==> jobj_kind(data, argof(tree.Comparator, 0), tree.Root.Value) >= 2)
+//@   ensures [C12] atomic: result != nil ==> tree.size == old(tree.size) && (forall i :: 0 <= i && i < tree.size ==> KeyAt(tree, i) == old(KeyAt(tree, i)) && ValAt(tree, i) == old(ValAt(tree, i)))
+//@   ensures [C11 C12] loaded-all: jobj_kind(data, argof(tree.Comparator, 0), tree.Root.Value) == 3 ==> (forall k like argof(tree.Comparator, 0) :: jobj_has(data, k, tree.Root.Value) ==> Has(tree, k))
+//@   ensures [C11 C12] loaded-only: jobj_kind(data, argof(tree.Comparator, 0), tree.Root.Value) == 3 ==> (forall i :: 0 <= i && i < tree.size ==> jobj_has(data, KeyAt(tree, i), tree.Root.Value) && ValAt(tree, i) == jobj_val(data, KeyAt(tree, i), tree.Root.Value))
+//@   ensures [C12] null: jobj_kind(data, argof(tree.Comparator, 0), tree.Root.Value) == 2 ==> tree.size == 0
+//@   loop 1:
+//@     invariant Inv(tree) && tree.Comparator == old(tree.Comparator) && err == nil && jobj_kind(data, argof(tree.Comparator, 0), tree.Root.Value) >= 2
+//@     invariant jobj_kind(data, argof(tree.Comparator, 0), tree.Root.Value) == 3 ==> elements != nil && (forall k like argof(tree.Comparator, 0) :: has(elements, k) <==> jobj_has(data, k, tree.Root.Value)) && (forall k like argof(tree.Comparator, 0) :: has(elements, k) ==> elements[k] == jobj_val(data, k, tree.Root.Value))
+//@     invariant jobj_kind(data, argof(tree.Comparator, 0), tree.Root.Value) == 2 ==> elements == nil && tree.size == 0
+//@     invariant forall k like argof(tree.Comparator, 0) :: visited1[k] ==> Has(tree, k)
+//@     invariant forall i :: 0 <= i && i < tree.size ==> visited1[KeyAt(tree, i)] && has(elements, KeyAt(tree, i)) && ValAt(tree, i) == elements[KeyAt(tree, i)]
+//@     invariant forall x like tree.Root :: fresh(x) ==> x.tr == tree || x.tr == nil
+//@     decreases len(elements) - nvisited1
+
+//@ func Tree.UnmarshalJSON
+//@   requires Inv(tree)
+//@   modifies tree.Root, tree.size, tree.nodes, tree.rank
+//@   modifies each x like tree.Root where x.tr == tree : x.Children, x.Parent, x.lo, x.hi, x.h, x.b, x.Key, x.Value, x.pos, x.tr
+//@   ensures [C12 C17] Inv(tree) && tree.Comparator == old(tree.Comparator) && (result == nil <==> jobj_kind(bytes, argof(tree.Comparator, 0), tree.Root.Value) >= 2)
+//@   ensures [C12] atomic: result != nil ==> tree.size == old(tree.size) && (forall i :: 0 <= i && i < tree.size ==> KeyAt(tree, i) == old(KeyAt(tree, i)) && ValAt(tree, i) == old(ValAt(tree, i)))
+//@   ensures [C11 C12] loaded-all: jobj_kind(bytes, argof(tree.Comparator, 0), tree.Root.Value) == 3 ==> (forall k like argof(tree.Comparator, 0) :: jobj_has(bytes, k, tree.Root.Value) ==> Has(tree, k))
+//@   ensures [C11 C12] loaded-only: jobj_kind(bytes, argof(tree.Comparator, 0), tree.Root.Value) == 3 ==> (forall i :: 0 <= i && i < tree.size ==> jobj_has(bytes, KeyAt(tree, i), tree.Root.Value) && ValAt(tree, i) == jobj_val(bytes, KeyAt(tree, i), tree.Root.Value))
+//@   ensures [C12] null: jobj_kind(bytes, argof(tree.Comparator, 0), tree.Root.Value) == 2 ==> tree.size == 0
